@@ -68,7 +68,18 @@ def _inline_name_pattern(utils):
             for f in extra:
                 flags |= int(eval(compile(ast.Expression(f), "<flags>", "eval"), {"re": re}))
             found.append((node.func.attr, node.args[0].value, flags))
+        # x8: the same test through a precompiled module-level pattern (`_name_re.fullmatch(x)` / `.match(x)`) other than the
+        # patterns measured on their own (`MEASURED_GLOBALS`)
+        if (isinstance(node, ast.Call) and isinstance(node.func, ast.Attribute) and node.func.attr in ("match", "fullmatch", "search")
+                and isinstance(node.func.value, ast.Name) and node.func.value.id not in MEASURED_GLOBALS
+                and isinstance(getattr(utils, node.func.value.id, None), re.Pattern) and len(node.args) == 1 and not node.keywords):
+            c = getattr(utils, node.func.value.id)
+            found.append((node.func.attr, c.pattern, c.flags))
     return found
+
+
+# compiled patterns of utils.py that have a measurement / certificate of their own
+MEASURED_GLOBALS = ("_canonicalize_regex", "_build_tag_regex", "_normalized_regex")
 
 
 @table("NameTables")
@@ -100,6 +111,18 @@ def _name_tables():
             if atom is not None:
                 _, wn_ranges = T.sweep(tree.state, c.flags, *atom)
                 wn_ok = wn_method == "match"
+        elif wn_method == "fullmatch" and not (c.flags & re.MULTILINE):
+            # x8: `fullmatch` of `<atom>*` (anchors optional): the match has to end at the end of the string, so even a `$`
+            # cannot stop before a trailing newline — the language is that of `^<atom>*\Z`
+            core = list(items)
+            if core and core[0] == (P.AT, P.AT_BEGINNING):
+                core = core[1:]
+            if core and core[-1] in ((P.AT, P.AT_END), (P.AT, P.AT_END_STRING)):
+                core = core[:-1]
+            atom = _single_repeat(core, 0) if len(core) == 1 else None
+            if atom is not None:
+                _, wn_ranges = T.sweep(tree.state, c.flags, *atom)
+                wn_ok, wn_dollar = True, False
         info["wheel_name_pattern"] = pat
     # --- _build_tag_regex : (\d+)(.*)
     br = utils._build_tag_regex
